@@ -160,7 +160,7 @@ DSlot == [id |-> 0, k |-> "D", c |-> 0, o |-> 0]
 \* The slot lists an agent may put into a message sent on channel c: handles it owns, each
 \* receiver at most once, and a receiver only into a channel with a smaller id (acyclic family).
 SlotLists(a, c) ==
-    LET cand == {h \in Owned(a) : h.k # "R" \/ h.c > c}
+    LET cand == {h \in Owned(a) : h.k \in {"S", "M"} \/ (h.k = "R" /\ h.c > c)}
         one  == {<<h>> : h \in cand} \cup {<<DSlot>>}
         RECURSIVE upto(_)
         upto(n) == IF n = 0 THEN {<<>>}
@@ -177,7 +177,7 @@ DedupReceivers(raw) ==
 DrawSlots(cand, n) == DedupReceivers([i \in 1..n |-> RandomElement(cand)])
 
 RandSlots(a, c) ==
-    {DrawSlots({h \in Owned(a) : h.k # "R" \/ h.c > c} \cup {DSlot}, RandomElement(0..MaxSlots))}
+    {DrawSlots({h \in Owned(a) : h.k \in {"S", "M"} \/ (h.k = "R" /\ h.c > c)} \cup {DSlot}, RandomElement(0..MaxSlots))}
 
 SlotChoices(a, c) ==
     IF ctype[c] = "bytes" THEN {<<>>}
